@@ -55,6 +55,9 @@ class _Func:
 SUBJECTS = {"Solve", "HandleError", "CheckFlag", "PyWrapSolve", "Init", "Reset", "Finalize"}
 
 
+_THIS = re.compile(r"\bthis\s*->\s*")          # `this->x` is `x` (no local of these functions shadows a member)
+
+
 def _helpers(sk, but):
     """functions of the file (free or member) whose calls are replaced by their bodies, by unqualified name: (parameters as
     (name, by-value / reference / pointer, type), parsed body).  Constructors, destructors, operators and the functions the
@@ -73,7 +76,7 @@ def _helpers(sk, but):
         if params is None:
             continue
         try:
-            cache[f.name] = (short, params, cstmt.parse_body(cstmt.expand_macros(_ctext(sk, f.body), sk.__dict__.get("_c19_macros", {}))))
+            cache[f.name] = (short, params, cstmt.parse_body(_THIS.sub("", cstmt.expand_macros(_ctext(sk, f.body), sk.__dict__.get("_c19_macros", {})))))
         except cstmt.CStmtError:
             pass
     return {v[0]: (v[1], v[2]) for k, v in cache.items() if v and k != but}
@@ -86,7 +89,7 @@ def _func(ctx, rel, cfg, fname):
         return None
     if "_c19_macros" not in sk.__dict__:
         sk._c19_macros = cstmt.macro_defs(_ctext(sk, sk.clean))
-    text = cstmt.expand_macros(_ctext(sk, fs[0].body), sk._c19_macros)
+    text = _THIS.sub("", cstmt.expand_macros(_ctext(sk, fs[0].body), sk._c19_macros))
     try:
         body = cstmt.inline_calls(cstmt.parse_body(text), _helpers(sk, fname))
     except cstmt.CStmtError as ex:
